@@ -46,7 +46,7 @@ const (
 	// inputs whose tag count (as the readers will parse it) exceeds this are not
 	// executed: the tag loops run that many iterations even on an 11 byte input
 	// (minutes of CPU for 2^32), which the property does not speak about.
-	maxTagLoop = 1 << 16
+	maxTagLoop = 1 << 12
 )
 
 var (
@@ -159,7 +159,7 @@ func tooManyTagIterations(c krammar.Cell, in []byte) bool {
 // It returns a violation description or "", and whether a decode succeeded.
 func evalInput(c krammar.Cell, in []byte) (msg string, decoded bool) {
 	if tooManyTagIterations(c, in) {
-		ev.Class("skipped_tag_count_over_64K")
+		ev.Class("skipped_tag_count_over_4096")
 		return "", false
 	}
 	bound := uint64(allocK0) + factor[c.B.Name]*uint64(len(in))
@@ -190,7 +190,7 @@ func evalInput(c krammar.Cell, in []byte) (msg string, decoded bool) {
 			return fmt.Sprintf("AppendTo of the value %s decoded panicked: %v", name, pan), true
 		}
 		if tooManyTagIterations(c, re) {
-			ev.Class("skipped_tag_count_over_64K")
+			ev.Class("skipped_tag_count_over_4096")
 			continue
 		}
 		r2 := decode(c, re, unsafe, false)
